@@ -53,7 +53,7 @@ T = {
 
 NOTES = {
  "C01": "CHOLMOD stand-in (dense Cholesky) trusted; 10 objective families (incl. two-scale, valley, far-flat, barrier), settings incl. their boundaries (tol=0), load sequences on one Objective; D1 open (final success-flagged iterate uphill).",
- "C02": "jax autodiff of the library's own energy (dense Hessian, or Hessian-vector products for the >1000-element size class) is the reference; open: D12 (unsymmetric log-strain tangent at repeated stretches), C02-N1 (mixed state widths in multi-block).",
+ "C02": "jax autodiff of the library's own energy (dense Hessian, or Hessian-vector products for the >1000-element size class) is the reference; open: D12 (unsymmetric log-strain tangent at repeated stretches); C02-N1 (mixed state widths in multi-block) fixed in /repo 04045a4, the mixed-width class must hold.",
  "C03": "scipy Gauss-Jacobi (long-double polished) and Gauss-Legendre rules exact to the stated degree; meshes at absolute scales 1e-8..1e8 and offsets; library-elevated meshes judged as returned.",
  "C04": "CHOLMOD stand-in trusted; convex classes built around Slater points with planted KKT points, active-set enumeration for m<=6; non-returns vacuous with a per-class return-rate floor; load sequences on reused objectives.",
  "C05": "CHOLMOD stand-in trusted; planted box-QP optimum cross-checked by an independent projected-Newton solve; contracts on project/project_onto_tr/Cauchy point in situ; D1 open.",
